@@ -380,3 +380,77 @@ Proof.
     + rewrite IH by lia. f_equal.
       replace i with ((i - ewidth e) + 1 * ewidth e) at 2 by lia. rewrite Z.mod_add by lia. reflexivity.
 Qed.
+
+(* ---------- bit_select / word_select: folding a constant offset into a slice does not change the value ---------- *)
+Lemma const_of_denote en off v : const_of off = Some v -> denote en off = v.
+Proof. destruct off; try discriminate. cbn. congruence. Qed.
+
+Lemma const_unsigned_nonneg off v : const_of off = Some v -> wf_expr off = true -> sgn (shape_of off) = false -> 0 <= v.
+Proof.
+  destruct off as [c s| | | | | | |]; try discriminate. cbn. intros H Hwf Hs. injection H as <-.
+  unfold norm. rewrite Hs. unfold mask. apply Z.mod_pos_bound. apply pow2_pos. apply wf_width_nonneg. exact Hwf.
+Qed.
+
+Theorem mk_bit_select_spec en e off w r : wf_expr e = true -> wf_expr off = true -> sgn (shape_of off) = false ->
+  env_ok en e -> 0 <= w -> mk_bit_select e off w = Some r ->
+  wf_expr r = true /\ shape_of r = Sh w false /\ denote en r = denote en (EPart e off w 1).
+Proof.
+  intros Hwf Hwo Hso Henv Hw H. destruct (shape_sound en e Hwf Henv) as [Hws _].
+  pose proof (wf_width_nonneg _ Hws) as Hlen. fold (ewidth e) in Hlen.
+  unfold mk_bit_select in H. destruct (const_of off) as [v|] eqn:Hc.
+  - pose proof (const_unsigned_nonneg _ _ Hc Hwo Hso) as Hv.
+    destruct (v + w <=? ewidth e) eqn:Efit.
+    + unfold mk_getitem_key, py_key_indices in H. cbn [kstep kstart kstop] in H. cbn [Z.eqb Z.ltb Z.compare] in H.
+      unfold py_adjust in H. replace (v <? 0) with false in H by lia. replace (v + w <? 0) with false in H by lia.
+      replace (Z.min v (ewidth e)) with v in H by lia. replace (Z.min (v + w) (ewidth e)) with (v + w) in H by lia.
+      injection H as <-. split; [|split].
+      * cbn [wf_expr]. rewrite Hwf. lia.
+      * cbn [shape_of]. f_equal. lia.
+      * cbn [denote]. rewrite (const_of_denote en _ _ Hc). f_equal; lia.
+    + injection H as <-. split; [|split]; try reflexivity. cbn [wf_expr]. rewrite Hwf, Hwo, Hso. cbn. lia.
+  - injection H as <-. split; [|split]; try reflexivity. cbn [wf_expr]. rewrite Hwf, Hwo, Hso. cbn. lia.
+Qed.
+
+Theorem mk_word_select_spec en e off w r : wf_expr e = true -> wf_expr off = true -> sgn (shape_of off) = false ->
+  env_ok en e -> 1 <= w -> mk_word_select e off w = Some r ->
+  wf_expr r = true /\ shape_of r = Sh w false /\ denote en r = denote en (EPart e off w w).
+Proof.
+  intros Hwf Hwo Hso Henv Hw H. destruct (shape_sound en e Hwf Henv) as [Hws _].
+  pose proof (wf_width_nonneg _ Hws) as Hlen. fold (ewidth e) in Hlen.
+  unfold mk_word_select in H. destruct (const_of off) as [v|] eqn:Hc.
+  - pose proof (const_unsigned_nonneg _ _ Hc Hwo Hso) as Hv.
+    destruct ((v + 1) * w <=? ewidth e) eqn:Efit.
+    + unfold mk_getitem_key, py_key_indices in H. cbn [kstep kstart kstop] in H. cbn [Z.eqb Z.ltb Z.compare] in H.
+      unfold py_adjust in H. assert (0 <= v * w) by nia. assert ((v + 1) * w = v * w + w) as Hvw by ring.
+      replace (v * w <? 0) with false in H by lia. replace ((v + 1) * w <? 0) with false in H by lia.
+      replace (Z.min (v * w) (ewidth e)) with (v * w) in H by lia.
+      replace (Z.min ((v + 1) * w) (ewidth e)) with ((v + 1) * w) in H by lia.
+      injection H as <-. split; [|split].
+      * cbn [wf_expr]. rewrite Hwf. lia.
+      * cbn [shape_of]. f_equal. lia.
+      * cbn [denote]. rewrite (const_of_denote en _ _ Hc). f_equal; lia.
+    + injection H as <-. split; [|split]; try reflexivity. cbn [wf_expr]. rewrite Hwf, Hwo, Hso. cbn. lia.
+  - injection H as <-. split; [|split]; try reflexivity. cbn [wf_expr]. rewrite Hwf, Hwo, Hso. cbn. lia.
+Qed.
+
+(* ---------- stepped slices: value[start:stop:step] picks bit start + j*step as bit j ---------- *)
+Lemma step_slice_bits en e s : forall n a j, (forall k, 0 <= k < Z.of_nat n -> 0 <= a + k * s) -> 0 <= j < Z.of_nat n ->
+  Z.testbit (denote en (mk_step_slice e a s n)) j = Z.testbit (denote en e) (a + j * s).
+Proof.
+  unfold mk_step_slice. induction n as [|n IH]; intros a j Hk Hj; [lia|].
+  cbn [mk_step_slice_n]. cbn [denote map]. fold (denote en).
+  cbn [denote cat_of]. unfold ewidth at 1. cbn [shape_of width]. replace (a + 1 - a) with 1 by lia.
+  change (2 ^ 1) with 2. unfold bits_at. change (2 ^ 1) with 2. rewrite Z.mod_mod by lia.
+  pose proof (Hk 0 ltac:(lia)) as Ha. rewrite Z.mul_0_l, Z.add_0_r in Ha.
+  rewrite <- (Z.testbit_spec' (denote en e) a Ha).
+  set (R := cat_of _). rewrite (Z.add_comm (Z.b2z _)).
+  replace (2 ^ ewidth (ESlice e a (a + 1))) with 2 by (unfold ewidth; cbn [shape_of width]; replace (a + 1 - a) with 1 by lia; reflexivity).
+  destruct (Z.eq_dec j 0) as [->|Hj0].
+  - rewrite Z.testbit_0_r. rewrite Z.mul_0_l, Z.add_0_r. reflexivity.
+  - replace j with (Z.succ (j - 1)) at 1 by lia. rewrite Z.testbit_succ_r by lia.
+    unfold R. transitivity (Z.testbit (denote en (ECat (mk_step_slice_n e (a + s) s n))) (j - 1)); [reflexivity|].
+    rewrite (IH (a + s) (j - 1)).
+    + f_equal. ring.
+    + intros k Hk'. specialize (Hk (k + 1) ltac:(lia)). replace (a + s + k * s) with (a + (k + 1) * s) by ring. exact Hk.
+    + lia.
+Qed.
